@@ -422,3 +422,37 @@ Theorem C20_footprint_check_vol_sound : forall vol evs, footprint_ok_vol vol evs
   exists memo : N -> option N, forall e, In e evs -> vol (e_key e) = false -> ev_legal memo e /\ pat_refuted (e_pat e) = false.
 Proof. exact footprint_ok_vol_sound. Qed.
 Print Assumptions C20_footprint_check_vol_sound.
+
+(* ============================================================================================ *)
+(* the READ side, over a table "operation -> slots read / slots written" (regenerated by translators/opreads.py;   *)
+(* instantiated on the regenerated table in genproofs/GenOpReadsProofs.v on every run)                             *)
+(* ============================================================================================ *)
+From Pq Require Import Conc.OpTable Proofs.OpTableProofs.
+
+(* for ANY table in which no operation reads a slot that some operation writes non-idempotently, every operation - as the
+   program its row denotes - is disciplined under the classification the whole table induces (never written: Frozen;
+   written idempotently: Idem; written non-idempotently: Multi), with a pure function of the frozen slots as result *)
+Theorem C20_table_ops_disciplined :
+  forall (V R : Type) (f : N -> list (option V) -> V) (jv : N -> V) (err : R) (out : list (option V) -> R) (base : store V)
+         (tbl : list oprow) (i : nat) (r : oprow) pv kn,
+    table_disciplined tbl = true -> In r tbl ->
+    okp (cls_tbl V f base tbl) base i pv kn (row_prog V R f jv err out tbl r) (row_pure V R f out base tbl r) pv.
+Proof. exact row_prog_disciplined. Qed.
+Print Assumptions C20_table_ops_disciplined.
+
+Theorem C20_table_ops_confluent :
+  forall (V R : Type) (f : N -> list (option V) -> V) (jv : N -> V) (err : R) (out : list (option V) -> R) (base : store V)
+         (tbl : list oprow) (rows : nat -> oprow) (s0 : store V),
+    table_disciplined tbl = true -> (forall i, In (rows i) tbl) -> consistentc (cls_tbl V f base tbl) base s0 ->
+    forall sched i r,
+      result (exec sched (init (fun j => row_prog V R f jv err out tbl (rows j)) s0)) i = Some r ->
+      r = row_pure V R f out base tbl (rows i).
+Proof. exact table_ops_confluent. Qed.
+Print Assumptions C20_table_ops_confluent.
+
+(* non-vacuity: a two-row table (reader of slots 0 and 1; memoiser of slot 1 that also bumps a counter slot 2 nobody reads)
+   is disciplined; the same table with a row reading the counter is not *)
+Example C20_nonvacuous_table :
+  table_disciplined [mkRow "read" [0; 1]%N []; mkRow "memo" [0; 1]%N [(1%N, PCheckThenAct); (2%N, PAugmented)]] = true /\
+  table_disciplined [mkRow "read" [0; 2]%N []; mkRow "memo" [0; 1]%N [(1%N, PCheckThenAct); (2%N, PAugmented)]] = false.
+Proof. vm_compute. split; reflexivity. Qed.
